@@ -8,6 +8,7 @@ tuples) from the readable table KINDS below; every run verifies that the committ
 """
 import json, os, re, shutil, subprocess, sys, time
 from pathlib import Path
+from concurrent.futures import ThreadPoolExecutor
 
 if __name__ == "__main__":
     sys.path.insert(0, str(Path(__file__).resolve().parent.parent / "lib"))
@@ -53,10 +54,10 @@ KINDS = [
     ("heading", 0, 0, "# T [a]({rel:p^/q.html})"),
     ("list_item", 0, 0, "- [a]({rel:p^/q.html})"),
     ("quote", 0, 0, "> [a]({rel:p^/q.html})"),
-    ("esc_bracket", 1, 0, "\\[no]({nonlink:f^/g.html}) [yes]({rel:p^/q.html})"),
+    ("esc_bracket", 0, 0, "\\[no]({nonlink:f^/g.html}) [yes]({rel:p^/q.html})"),
     ("spaced_paren", 0, 0, "[no] ({nonlink:f^/g.html})"),
     ("codespan", 1, 0, "Use `[f]({code:f^/g.html})` here."),
-    ("codespan2", 0, 0, "``[f]({code:f^/g.html}) ` x``"),
+    ("codespan2", 0, 0, "``x ` [f]({code:f^/g.html})``"),
     ("codespan_inner_run", 0, 0, "`a``[f]({code:f^/g.html})``b`"),
     ("fence_bq", 1, 0, "```\n[f]({code:f^/g.html})\n```"),
     ("fence_tilde_long", 1, 0, "~~~\n[f]({code:f^/g.html})\n~~~~"),
@@ -69,15 +70,15 @@ KINDS = [
     ("html_pre", 0, 0, "<pre>\n[f]({html:f^/g.html})\n</pre>"),
     ("html_comment", 1, 0, "<!-- [f]({html:f^/g.html}) -->"),
     ("html_comment_ml", 0, 0, "<!--\n[f]({html:f^/g.html})\n\n[g]({html:f^/h.html})\n-->"),
-    ("d_abs", 1, 0, "[a]({stay:https://other.org/p^})"),
+    ("d_abs", 0, 0, "[a]({stay:https://other.org/p^})"),
     ("d_mailto", 0, 0, "[a]({stay:mailto:u^@x.org})"),
     ("d_frag", 1, 0, "[a]({stay:#s^})"),
-    ("d_query", 1, 0, "[a]({stay:?q=^})"),
+    ("d_query", 0, 0, "[a]({stay:?q=^})"),
     ("d_qf", 0, 0, "[a]({stay:?q=^#s})"),
-    ("d_up", 1, 0, "[a]({rel:../u^.html})"),
-    ("d_dot", 1, 0, "[a]({rel:./d^})"),
+    ("d_up", 0, 0, "[a]({rel:../u^.html})"),
+    ("d_dot", 0, 0, "[a]({rel:./d^})"),
     ("d_noext", 0, 0, "[a]({rel:n^})"),
-    ("d_slash", 1, 0, "[a]({rel:s^/})"),
+    ("d_slash", 0, 0, "[a]({rel:s^/})"),
     ("d_root", 0, 0, "[a]({rel:/r^})"),
     ("d_net", 0, 0, "[a]({rel://cdn.org/l^.js})"),
     ("d_relfrag", 0, 0, "[a]({rel:p^/q.html#frag})"),
@@ -138,6 +139,323 @@ def check_kinds_module():
     f = rig.SPEC / "linkdest" / "LinkDestKinds.tla"
     if not f.exists() or f.read_text() != kinds_module():
         raise Infra("spec/linkdest/LinkDestKinds.tla is not the text generated from KINDS: run python3 checks/c29.py --gen")
+
+
+# kinds on which the implementation-shaped model is known to deviate from the reference (each one is a finding
+# demonstrated on the real code, see PROPOSED_KNOWN); MC_LinkDest does not assert documents containing them.
+EXCUSED = ["codespan_inner_run", "autolink", "html_unclosed", "codespan_ml", "linktext_ml", "quote_fence",
+           "nested_list4", "bq_unbalanced"]
+
+# Genuine defects demonstrated by this check on the unchanged tree (each confirmed by goldmark on the violation
+# path); minimal documents, code locations and proposed repairs are in the C29 report.
+PROPOSED_KNOWN = [
+    {"kind": "known", "signature": {"fam": "linkdest", "cause": "code-rewritten", "kind": "codespan_inner_run"},
+     "what": "link rewriting: a backquote run longer than the opening one closes the code span one byte late (scanInlineLinks steps through the run byte by byte), so `a``[f](x)``b` has its destination rewritten inside a code span"},
+    {"kind": "known", "signature": {"fam": "linkdest", "cause": "code-rewritten", "kind": "codespan_ml"},
+     "what": "link rewriting: code-span state is per line, so a code span that continues on the next line (`x\\n[f](x)`) has a destination rewritten inside it"},
+    {"kind": "known", "signature": {"fam": "linkdest", "cause": "code-rewritten", "kind": "quote_fence"},
+     "what": "link rewriting: a fenced code block inside a block quote ('> ```') is not recognised (isFenceStart looks at the line start only), destinations inside it are rewritten"},
+    {"kind": "known", "signature": {"fam": "linkdest", "cause": "missed", "kind": "linktext_ml"},
+     "what": "link rewriting: the link stack is per line, so an inline link whose text continues on the next line ([a\\nb](x)) is not rewritten"},
+    {"kind": "known", "signature": {"fam": "linkdest", "cause": "missed", "kind": "nested_list4"},
+     "what": "link rewriting: every line indented by 4+ columns is skipped as indented code (isIndentedCode has no block context), so links in a nested list item ('    - b [x](y)') are not rewritten"},
+    {"kind": "known", "signature": {"fam": "linkdest", "cause": "missed", "kind": "bq_unbalanced"},
+     "what": "link rewriting: an unmatched backquote opens a 'code span' to the end of the line, links after it on that line are not rewritten"},
+    {"kind": "known", "signature": {"fam": "linkdest", "cause": "missed", "after": "autolink"},
+     "what": "link rewriting: an autolink <https://...> is parsed by parseHTMLTag as an open tag named 'https' that is never closed; no link after it in the file is rewritten"},
+    {"kind": "known", "signature": {"fam": "linkdest", "cause": "missed", "after": "html_unclosed"},
+     "what": "link rewriting: the HTML tag stack survives the blank line that ends an HTML block, so after an unclosed <div> no link in the rest of the file is rewritten"},
+]
+
+
+def consts(ctx):
+    return {"AllLen": 2, "CoreLen": ctx.pick(3, 4), "Excused": set(EXCUSED), "EscLen": ctx.pick(3, 5)}
+
+
+def go_test(ctx, infile, outfile, oracle=False):
+    """Replay: go test -tags verif -run ^TestVerifLinkDest$ in the repository under test (the hook reads
+    VERIF_C29_IN, writes VERIF_C29_OUT).  Any failure of the machinery is Infra, never a verdict."""
+    if not (rig.REPO / HOOK).exists():
+        raise Infra(f"hook file missing: {rig.REPO / HOOK} (staged copy: {rig.ROOT / 'hooks-staging' / HOOK})")
+    env = rig.goenv()
+    env["VERIF_C29_IN"], env["VERIF_C29_OUT"] = str(infile), str(outfile)
+    env.pop("VERIF_C29_ORACLE", None)
+    if oracle:
+        env["VERIF_C29_ORACLE"] = "1"
+    out = Path(outfile)
+    if out.exists():
+        out.unlink()
+    cmd = ["go", "test", "-tags", "verif", "-run", "^TestVerifLinkDest$", "-count=1", "./cmd/scriggo/"]
+    t = time.time()
+    try:
+        p = subprocess.run(cmd, cwd=rig.REPO, env=env, stdout=subprocess.PIPE, stderr=subprocess.STDOUT, text=True,
+                           timeout=GO_TIMEOUT)
+    except subprocess.TimeoutExpired:
+        raise Infra(f"go test timed out after {GO_TIMEOUT}s")
+    if p.returncode != 0 or not out.exists():
+        raise Infra(f"go test -tags verif ./cmd/scriggo failed rc={p.returncode}:\n" + rig.tail(p.stdout, 30))
+    return time.time() - t
+
+
+def show(o):
+    if o["k"] == "esc":
+        return {"k": "esc", "u": rig.b2s(o["u"]), "esc": rig.b2s(o["esc"]), "unesc": rig.b2s(o["unesc"])}
+    d = {"k": "doc", "kinds": o["kinds"], "base": rig.b2s(o["base"]), "dir": rig.b2s(o["dir"]), "src": rig.b2s(o["src"]),
+         "spans": [[sp["s"], sp["e"], sp["c"]] for sp in o["spans"]], "out": rig.b2s(o["out"])}
+    if o["out2"] != o["out"]:
+        d["out2"] = rig.b2s(o["out2"])
+    if o.get("outcome") != "ok":
+        d["outcome"], d["err"] = o.get("outcome"), o.get("err")
+    if "gm" in o:
+        d["goldmark_destinations"] = o["gm"]
+    return d
+
+
+def case_of(o):
+    keys = ("id", "k", "u") if o["k"] == "esc" else ("id", "k", "kinds", "src", "spans", "base", "dir")
+    return {k: o[k] for k in keys}
+
+
+def nontrivial(o):
+    return o["k"] == "doc" and o.get("out") != o.get("src") or o["k"] == "esc" and o.get("esc") != o.get("u")
+
+
+def judge(ctx, step, obs_path, mode="judge"):
+    """Trace_LinkDest over an observation file; large files are cut into shards judged by parallel TLC processes
+    (python only splits lines and merges the per-signature lists).  Returns one record per distinct signature:
+    {k (1-based index of the first observation having it), id, sig, n (observations sharing it), nbad (total)}."""
+    lines = Path(obs_path).read_text().splitlines(keepends=True)
+    nsh = max(1, min(6, len(lines) // 12000))
+    if nsh == 1:
+        return rig.trace_judge(ctx, step, FAMS, "Trace_LinkDest", obs_path, consts={"Mode": mode})[0]
+    size = (len(lines) + nsh - 1) // nsh
+    os.environ.setdefault("JAVA_TOOL_OPTIONS", "-XX:ParallelGCThreads=2 -XX:CICompilerCount=2")
+
+    def one(i):
+        f = ctx.work / f"{step}_shard{i}.ndjson"
+        f.write_text("".join(lines[i * size:(i + 1) * size]))
+        return rig.trace_judge(ctx, f"{step}_{i}", FAMS, "Trace_LinkDest", f, consts={"Mode": mode})[0]
+    with ThreadPoolExecutor(max_workers=nsh) as pool:
+        parts = list(pool.map(one, range(nsh)))
+    merged, total = {}, 0
+    for i, bs in enumerate(parts):
+        total += bs[0]["nbad"] if bs else 0
+        for b in bs:
+            key = json.dumps(b["sig"], sort_keys=True)
+            b["k"] += i * size
+            if key in merged:
+                merged[key]["n"] += b["n"]
+            else:
+                merged[key] = b
+    out = sorted(merged.values(), key=lambda b: b["k"])
+    for b in out:
+        b["nbad"] = total
+    return out
+
+
+def corruptions(accepted):
+    """Falsified copies of ACCEPTED observations, each with the set of causes the Trace spec may name."""
+    out = []
+    docs = [o for o in accepted if o["k"] == "doc"]
+
+    def pick(pred):
+        for o in docs:
+            if pred(o):
+                return json.loads(json.dumps(o))
+        return None
+    # 1. a byte outside every span changed
+    o = pick(lambda o: any(sp["c"] == "rel" for sp in o["spans"]) and o["spans"][0]["s"] > 0)
+    if o:
+        o["out"][0] ^= 1
+        o["out2"] = list(o["out"])
+        out.append((o, {"outside-changed"}))
+    # 2. a destination inside code / HTML rewritten
+    o = pick(lambda o: any(sp["c"] in ("code", "html") for sp in o["spans"]))
+    if o:
+        sp = [sp for sp in o["spans"] if sp["c"] in ("code", "html")][0]
+        k = o["spans"].index(sp)
+        # position in out: spans before it may have been rewritten; corrupt through the source instead
+        src = bytes(o["src"])
+        old = src[sp["s"]:sp["e"]]
+        outb = bytes(o["out"])
+        at = outb.find(old)
+        if at >= 0:
+            new = outb[:at] + b"https://example.com/x.md" + outb[at + len(old):]
+            o["out"] = list(new)
+            o["out2"] = list(new)
+            out.append((o, {sp["c"] + "-rewritten"}))
+    # 3. a relative destination left relative (the input returned unchanged)
+    o = pick(lambda o: any(sp["c"] == "rel" for sp in o["spans"]))
+    if o:
+        o["out"] = list(o["src"])
+        o["out2"] = list(o["src"])
+        out.append((o, {"missed"}))
+    # 4. fragment-only / absolute destination rewritten
+    o = pick(lambda o: len(o["spans"]) == 1 and o["spans"][0]["c"] == "stay")
+    if o:
+        sp = o["spans"][0]
+        new = o["src"][:sp["s"]] + list(b"https://example.com/base/docs.md") + o["src"][sp["e"]:]
+        o["out"], o["out2"] = new, list(new)
+        out.append((o, {"stay-changed"}))
+    # 5. rewritten, but not under the base
+    o = pick(lambda o: len(o["spans"]) == 1 and o["spans"][0]["c"] == "rel")
+    if o:
+        sp = o["spans"][0]
+        new = o["src"][:sp["s"]] + list(b"/abs/but/no/origin.md") + o["src"][sp["e"]:]
+        o["out"], o["out2"] = new, list(new)
+        out.append((o, {"not-absolute"}))
+    # 6. second pass changes the text again
+    o = pick(lambda o: any(sp["c"] == "rel" for sp in o["spans"]))
+    if o:
+        o["out2"] = o["out2"] + [120]
+        out.append((o, {"not-idempotent"}))
+    # 7. escape pair does not round-trip
+    for e in accepted:
+        if e["k"] == "esc" and e["u"]:
+            e = json.loads(json.dumps(e))
+            e["unesc"] = e["unesc"] + [92]
+            out.append((e, {"esc-roundtrip"}))
+            break
+    for i, (o, _) in enumerate(out):
+        o["id"] = 900000001 + i
+        if o["k"] == "doc":     # keeps the signatures of the falsified copies apart from those of real findings
+            o["kinds"] = [k + "/selftest" for k in o["kinds"]]
+    return out
+
+
+def oracle_guard(ctx, confirmed, confirm_obs):
+    """Violation path only: goldmark (CommonMark) is asked whether the blamed span really is / is not a link
+    destination.  If goldmark sides with the real code against the ground truth, the specification is wrong for
+    that block: the record is oracle_disputed, not a violation."""
+    byid = {o["id"]: o for o in confirm_obs}
+    kept, disputed, summary = [], [], {"goldmark_agrees_with_ground_truth": 0, "goldmark_disputes_ground_truth": 0, "not_applicable": 0}
+    for b in confirmed:
+        o = byid.get(b["id"])
+        cause = b["sig"]["cause"]
+        if o is None or o["k"] != "doc" or "gm" not in o or cause not in ("missed", "code-rewritten", "html-rewritten", "nonlink-rewritten"):
+            summary["not_applicable"] += 1
+            kept.append(b)
+            continue
+        unesc = lambda t: re.sub(r"\\([!-/:-@\[-`{-~])", r"\1", t)     # goldmark keeps backslash escapes in Destination
+        gm = {unesc(d[4:] if d.startswith("ref:") else d) for d in o["gm"]}
+        src = bytes(o["src"])
+        blamed = [sp for sp in o["spans"] if o["kinds"][sp["b"] - 1] == b["sig"]["kind"]
+                  and (sp["c"] == "rel") == (cause == "missed")]
+        texts = {unesc(src[sp["s"]:sp["e"]].decode("latin-1")) for sp in blamed}
+        is_link = bool(texts & gm)
+        agrees = is_link if cause == "missed" else not is_link
+        if agrees or not blamed:
+            summary["goldmark_agrees_with_ground_truth"] += 1
+            b["goldmark_destinations"] = o["gm"]
+            kept.append(b)
+        else:
+            summary["goldmark_disputes_ground_truth"] += 1
+            disputed.append(b)
+    ctx.cov["oracle_guard"] = summary
+    if disputed:
+        ctx.cov["oracle_disputed"] = [{"id": b["id"], "sig": b["sig"], "case": show(b["obs"])} for b in disputed[:5]]
+    return kept
+
+
+def run(ctx, replay_case=None):
+    check_kinds_module()
+    K = consts(ctx)
+    obs = ctx.work / "obs.ndjson"
+    if replay_case is not None:
+        cases = ctx.work / "cases.ndjson"
+        rig.write_ndjson(cases, [replay_case])
+    else:
+        # 1. TLC: the transcribed scanner against the ground truth over every block sequence; export of the documents
+        wd = ctx.stage("mc", FAMS)
+        invs = ["ModelMeetsRef", "ModelOutputAbsolute"]
+        rig.write_cfg(wd / "MC_LinkDest.cfg", constants=K, invariants=invs)
+        r = ctx.tlc(wd, "MC_LinkDest", workers=rig.NCPU, timeout=1500, coverage=not ctx.quick)
+        ctx.cov.update(states=r.distinct, transitions=r.generated, mc_wall_s=round(r.wall, 1), mc_invariants=invs,
+                       bounds=f"documents of <= {K['AllLen']} blocks over all {len(KINDS)} block kinds and <= {K['CoreLen']} blocks over the "
+                              f"{sum(1 for k in KINDS if k[1])} core kinds (base https://example.com/base/, dir docs/sub); every single block under 4 base/dir "
+                              f"configurations; escape pair: strings of <= {K['EscLen']} bytes over 9 symbols",
+                       model_excused_kinds=EXCUSED)
+        if not r.ok:
+            if r.invariant_violated:
+                ctx.cov["model_counterexample"] = {"invariants": r.invariant_violated, "tlc_out": str(wd / "MC_LinkDest.out")}
+            else:
+                raise Infra(f"MC_LinkDest failed: {wd}/MC_LinkDest.out\n" + rig.tail(r.out, 30))
+        if not ctx.quick:
+            ctx.cov["actions_never_taken"] = r.coverage_zero()
+        cases = wd / "cases.ndjson"
+        if not cases.exists():
+            raise Infra("MC_LinkDest exported no cases.ndjson")
+    # 2. replay into the real code
+    ctx.cov["go_test_wall_s"] = round(go_test(ctx, cases, obs), 1)
+    allobs = rig.read_ndjson(obs)
+    ncases = sum(1 for _ in open(cases))
+    if len(allobs) != ncases:
+        raise Infra(f"hook wrote {len(allobs)} observations for {ncases} cases")
+    docs = [o for o in allobs if o["k"] == "doc"]
+    ctx.cov.update(evaluations=len(allobs), traces_validated_against_impl=len(allobs),
+                   documents=len(docs), escape_strings=len(allobs) - len(docs),
+                   distinct_nontrivial=len({json.dumps([o.get("src"), o.get("base"), o.get("dir"), o.get("u")]) for o in allobs if nontrivial(o)}),
+                   rule="every block sequence within the bounds and every escape string, exported by TLC (exhaustive, seed-independent); a document is "
+                        "non-trivial when the real replace() changed at least one byte, an escape string when escaping changed it",
+                   exhaustive=True,
+                   samples=[show(o) for o in rig.pick_samples([o for o in docs if nontrivial(o)] or allobs, 3, ctx.seed)]
+                           + [show(o) for o in rig.pick_samples([o for o in allobs if o["k"] == "esc" and nontrivial(o)], 1, ctx.seed)])
+    # 3. judge; in parallel, model drift (diagnostic): does the transcription predict the real bytes?
+    pool = ThreadPoolExecutor(max_workers=2)
+    dfut = None
+    if replay_case is None:
+        sample = rig.pick_samples(allobs, ctx.pick(1500, 20000), ctx.seed + 3)
+        dp = ctx.work / "drift_obs.ndjson"
+        rig.write_ndjson(dp, sample)
+        dfut = pool.submit(judge, ctx, "drift", dp, "drift")
+    bads = judge(ctx, "trace", obs)
+    for b in bads:
+        b["obs"] = allobs[b["k"] - 1]
+    ctx.cov["judged_bad_first_pass"] = bads[0]["nbad"] if bads else 0
+    ctx.cov["judged_bad_distinct_signatures"] = len(bads)
+    # 4. reproduction guard (fresh process, goldmark logged) and, in the same TLC run, the sensitivity self-test:
+    #    falsified copies of accepted observations must be rejected for the right reason
+    bad_ids = {b["id"] for b in bads}
+    st = corruptions([o for o in allobs if o["id"] not in bad_ids]) if replay_case is None else []
+    cobs = []
+    if bads:
+        ci, co = ctx.work / "confirm_cases.ndjson", ctx.work / "confirm_obs.ndjson"
+        rig.write_ndjson(ci, [case_of(b["obs"]) for b in bads])
+        go_test(ctx, ci, co, oracle=True)
+        cobs = rig.read_ndjson(co)
+    confirmed = []
+    if cobs or st:
+        cp = ctx.work / "confirm_selftest_obs.ndjson"
+        rig.write_ndjson(cp, cobs + [o for o, _ in st])
+        b2 = judge(ctx, "trace_confirm", cp)
+        again = {json.dumps(b["sig"], sort_keys=True) for b in b2 if b["id"] < 900000001}
+        confirmed = [b for b in bads if json.dumps(b["sig"], sort_keys=True) in again]
+        ctx.cov["unreproduced"] = len(bads) - len(confirmed)
+        confirmed = oracle_guard(ctx, confirmed, cobs)
+        for b in confirmed:
+            b["what"] = json.dumps(show(b["obs"]), ensure_ascii=False)
+        if st:
+            got = {b["sig"]["cause"] for b in b2 if b["id"] >= 900000001}
+            want = set().union(*[w for _, w in st])
+            nrej = sum(b["n"] for b in b2 if b["id"] >= 900000001)
+            if any(b["sig"]["cause"] == "esc-roundtrip" and b["id"] < 900000001 for b in b2):
+                nrej, got = nrej + 1, got | {"esc-roundtrip"}       # merged with a real finding of the same signature
+            ctx.cov["sensitivity_selftest"] = {"corrupted": len(st), "rejected": nrej, "causes": sorted(got)}
+            if len(st) < 7 or nrej < len(st) or not want <= got:
+                raise Infra(f"sensitivity self-test failed: {len(st)} corrupted observations, {nrej} rejected, causes {sorted(got)} (wanted {sorted(want)})")
+    if dfut is not None:
+        drift = dfut.result()
+        ctx.cov["model_drift"] = {"compared_with_model": len(sample), "mismatches": drift[0]["nbad"] if drift else 0,
+                                  "examples": [show(sample[b["k"] - 1]) for b in drift[:3]]}
+
+    def rw(rdir, b):
+        (rdir / "case.json").write_text(json.dumps(case_of(b["obs"])))
+        (rdir / "obs.json").write_text(json.dumps(b["obs"]))
+    return ctx.report(confirmed, replay_writer=rw)
+
+
+def replay(ctx, path):
+    return run(ctx, replay_case=json.loads((Path(path) / "case.json").read_text()))
 
 
 if __name__ == "__main__":
